@@ -99,8 +99,17 @@ impl Check for HoverCheck {
             };
             let accepted = signatures(&w, b);
             if !accepted.iter().any(|a| a == sig_shown.trim()) {
+                let mut sig = sign("wrong-hover-signature");
+                if ambiguous {
+                    let m = "textDocument/hover";
+                    let shown = |v: &Value| {
+                        let md = v["contents"]["value"].as_str().or_else(|| v["contents"].as_str()).unwrap_or("");
+                        json!(code_block(md).map(|c| c.0.trim().to_string()))
+                    };
+                    sig = crate::pinned_lsp::triage(sig, crate::pinned_lsp::baseline_agrees_on(m, &w.uri, &text, crate::pinned_lsp::position_params(m, &w.uri, p.line, p.character), &serde_json::to_value(&h).unwrap_or(Value::Null), shown));
+                }
                 r.fail(
-                    sign("wrong-hover-signature"),
+                    sig,
                     format!("hover on `{}` ({:?}) shows {:?}; the declaration it is bound to reads {:?}", w.tok(i).text, w.tok(i).role, sig_shown, accepted.first()),
                     detail(),
                 );
